@@ -461,7 +461,7 @@ def densify(coords: CoordList, resolution: float) -> CoordList:
             while d < segment_length:
                 (pt,) = segment.interpolate(d).coords
                 new_coords.append(pt)
-                d += resolution
+                d = d + resolution
 
         new_coords.append(p2)
 
